@@ -417,9 +417,9 @@ func (g *G) param(ctx string) Part {
 	case 2:
 		return Part{K: "param", S: pickS(g, append(varNames, "10", "@", "#")), Braces: true}
 	case 3:
-		return Part{K: "param", S: pickS(g, varNames), Op: "len"}
+		return Part{K: "param", S: pickS(g, append(varNames, "@", "*", "1", "?")), Op: "len"}
 	default:
-		p := Part{K: "param", S: pickS(g, append(varNames, "1", "@")), Op: pickS(g, paramOps)}
+		p := Part{K: "param", S: pickS(g, append(varNames, "1", "@", "*")), Op: pickS(g, paramOps)}
 		p.W = g.paramWord()
 		// "${x%%w}" is the %% operator, and the repo's tests pin "${x%#}" as a syntax
 		// error: a word for % or # never begins with % or #
